@@ -377,7 +377,11 @@ where
   ) {
     for (inst, gen) in instance_generations {
       if let Some(imd) = self.instance_map.get_mut(inst) {
-        imd.last_generation_accessed = *gen;
+        // Only forward: an access that touches just older samples of the
+        // instance must not make it look "new" again.
+        if gen.total() > imd.last_generation_accessed.total() {
+          imd.last_generation_accessed = *gen;
+        }
       } else {
         panic!("Instance disappeared!?!!1!");
       }
